@@ -82,13 +82,15 @@ let cmd_align r =
   let l = rd_list (fun r ->
       let sp = rd_nat r in
       let len = rd_q r in let d = rd_q r in let tag = rd_z r in
-      (sp, { a_len = len; a_delay = d; a_tag = tag })) r in
+      let id = rd_opt rd_z r in
+      (sp, { a_len = len; a_delay = d; a_tag = tag; a_id = id })) r in
   let dur = calc_duration (List.map snd l) in
   match align l with
   | Err e -> "ERR " ^ err_name e
   | OK out ->
     "OK " ^ tok_of_q dur ^ " "
-    ^ pr_list (fun e -> tok_of_q e.a_len ^ " " ^ tok_of_q e.a_delay ^ " " ^ tok_of_z e.a_tag) out
+    ^ pr_list (fun e -> tok_of_q e.a_len ^ " " ^ tok_of_q e.a_delay ^ " " ^ tok_of_z e.a_tag ^ " "
+                        ^ pr_opt tok_of_z e.a_id) out
 
 let rd_rev r : rev =
   match next r with
